@@ -275,7 +275,7 @@ def run_grad(case):
     evaluated = 0
     margins = [0.0]
     ambiguous_iv = (ts is None and tp is not None and len(u0) == len(params))
-    for cls in LC.CLASSES:
+    for cls in case.get("classes", LC.CLASSES):
         if cls not in data or (cls in LC.NEEDS_POSITIVE and lowest < 0.02):
             tags.append("skipped:%s:trajectory-not-positive" % cls)
             continue
